@@ -1,7 +1,9 @@
-(** Runner protocol, part 3: the fault-free protocol ([bad] nowhere, the reader does not fail).
-    Per-worker shape of the two pipes, pill accounting, placement count; from these:
-    - a finished run has written the blocks of *all* chunks in input order (C06_final),
-    - a state that is not finished always has an enabled step (no deadlock, C06_progress). *)
+(** Runner protocol, part 3: per-worker shape of the two pipes, pill accounting, fault tracking --
+    with and without faults.  From these:
+    - a run that finishes without failure has met no fault (C12_fail_visible),
+    - a fault-free run that finishes has written the blocks of ALL chunks in input order and merged
+      the statistics of all of them (C06_final),
+    - a state that is not terminal always has an enabled step: no deadlock (C06_progress / C12_no_deadlock). *)
 From Coq Require Import ZArith List Bool Arith Lia Permutation.
 From CV Require Import Model.Runner Proofs.RunnerSafety.
 Import ListNotations.
@@ -17,8 +19,6 @@ Section Live.
   Variable bad : nat -> bool.
   Variable rfail : option nat.
   Variable ffail : bool.
-  Hypothesis no_bad : forall i, bad i = false.
-  Hypothesis no_rfail : rfail = None.
   Hypothesis W_pos : 0 < W.
 
   Notation state := (state O S).
@@ -91,40 +91,1022 @@ Section Live.
     destruct (Nat.eqb w x); cbn; [split; [lia | reflexivity] | exact IH].
   Qed.
 
-  Definition is_result (m : msg_out O S) : bool := match m with MResult _ _ => true | _ => false end.
-  Definition is_pill (m : msg_in) : bool := match m with MPill => true | _ => false end.
-  Definition npills (l : list (nat * msg_in)) : nat := length (filter (fun x => is_pill (snd x)) l).
-  Definition ndone (h : nat -> wst) : nat := length (filter (fun w => match h w with Done => true | _ => false end) (seq 0 W)).
 
-  (** shape of the two pipes of worker w *)
-  Definition in_shape (s : state) (w : nat) : Prop :=
-    match wstate s w with
-    | Waiting => (qcount w (queue s) = 1 /\ ents w (inflight s) = []) \/
-                 (qcount w (queue s) = 0 /\ exists m, ents w (inflight s) = [(w, m)] /\ m <> MErrIn /\
-                    (forall i, m = MChunk i -> i < next s))
-    | _ => qcount w (queue s) = 0 /\ ents w (inflight s) = []
+  Notation rfn := (reader_fails_now O S rfail).
+
+  (** ---- inversion of a step: the guard of the label and the successor state *)
+  Definition stp (s : state) nx rd pl qu inf ws wa res fl : state :=
+    mkSt O S nx rd pl qu inf ws wa res (pending s) (cur s) (written s) (macc s) (open s) fl.
+
+  Lemma step_inv s l s' : step s l = Some s' ->
+    failed s = false /\
+    match l with
+    | LFmtFail => ffail = true /\
+        s' = stp s (next s) (rdone s) (pills s) (queue s) (inflight s) (wstate s) (wacc s) (results s) true
+    | LReq w => ffail = false /\ w < W /\ wstate s w = Idle /\
+        s' = stp s (next s) (rdone s) (pills s) (queue s ++ [w]) (inflight s) (upd (wstate s) w Waiting) (wacc s) (results s) false
+    | LSend w => ffail = false /\ rdone s = false /\ rfn s = false /\ next s < C /\ mem w (queue s) = true /\
+        s' = stp s (Datatypes.S (next s)) (rdone s) (pills s) (remove1 w (queue s)) (inflight s ++ [(w, MChunk (next s))])
+                 (wstate s) (wacc s) (results s) false
+    | LPill w => ffail = false /\ rdone s = false /\ rfn s = false /\ next s = C /\ pills s < W /\ mem w (queue s) = true /\
+        s' = stp s (next s) (Nat.eqb (Datatypes.S (pills s)) W) (Datatypes.S (pills s)) (remove1 w (queue s))
+                 (inflight s ++ [(w, MPill)]) (wstate s) (wacc s) (results s) false
+    | LRFail => ffail = false /\ rdone s = false /\ rfn s = true /\
+        s' = stp s (next s) true (pills s) (queue s) (inflight s ++ map (fun v => (v, MErrIn)) (seq 0 W))
+                 (wstate s) (wacc s) (results s) false
+    | LTake w => ffail = false /\ wstate s w = Waiting /\ exists i, head_for w (inflight s) = Some (MChunk i) /\
+        ((bad i = true /\
+          s' = stp s (next s) (rdone s) (pills s) (queue s) (drop_for w (inflight s)) (upd (wstate s) w Done) (wacc s)
+                   (results s ++ [(w, MErrOut)]) false) \/
+         (bad i = false /\ exists c, nth_error chunks i = Some c /\
+          s' = stp s (next s) (rdone s) (pills s) (queue s) (drop_for w (inflight s)) (upd (wstate s) w Idle)
+                   (upd (wacc s) w (sadd (wacc s w) (g c))) (results s ++ [(w, MResult i (f c))]) false))
+    | LFin w => ffail = false /\ wstate s w = Waiting /\ head_for w (inflight s) = Some MPill /\
+        s' = stp s (next s) (rdone s) (pills s) (queue s) (drop_for w (inflight s)) (upd (wstate s) w Done) (wacc s)
+                 (results s ++ [(w, MFin (wacc s w))]) false
+    | LWErr w => ffail = false /\ wstate s w = Waiting /\ head_for w (inflight s) = Some MErrIn /\
+        s' = stp s (next s) (rdone s) (pills s) (queue s) (drop_for w (inflight s)) (upd (wstate s) w Done) (wacc s)
+                 (results s ++ [(w, MErrOut)]) false
+    | LRecv w => ffail = false /\ mem w (open s) = true /\ exists i o, head_for w (results s) = Some (MResult i o) /\
+        exists p c wr, flush (Datatypes.S (length (pending s))) ((i, o) :: pending s) (cur s) (written s) = (p, c, wr) /\
+        s' = mkSt O S (next s) (rdone s) (pills s) (queue s) (inflight s) (wstate s) (wacc s) (drop_for w (results s))
+                  p c wr (macc s) (open s) false
+    | LRecvFin w => ffail = false /\ mem w (open s) = true /\ exists st, head_for w (results s) = Some (MFin st) /\
+        s' = mkSt O S (next s) (rdone s) (pills s) (queue s) (inflight s) (wstate s) (wacc s) (drop_for w (results s))
+                  (pending s) (cur s) (written s) (sadd (macc s) st) (remove1 w (open s)) false
+    | LRecvErr w => ffail = false /\ mem w (open s) = true /\ head_for w (results s) = Some MErrOut /\
+        s' = mkSt O S (next s) (rdone s) (pills s) (queue s) (inflight s) (wstate s) (wacc s) (drop_for w (results s))
+                  (pending s) (cur s) (written s) (macc s) (open s) true
     end.
+  Proof.
+    intros H. unfold Runner.step in H. destruct (failed s) eqn:Ef; [discriminate|]. split; [reflexivity|].
+    destruct ffail eqn:Eff.
+    { destruct l; try discriminate. inversion H; subst. split; reflexivity. }
+    destruct l as [w|w|w| |w|w|w|w|w|w|]; try discriminate.
+    - destruct (w <? W) eqn:Ew; cbn [andb] in H; [|discriminate]. destruct (wstate s w) eqn:Ews; try discriminate.
+      inversion H; subst. apply Nat.ltb_lt in Ew. repeat split; auto.
+    - match type of H with (if ?c then _ else _) = _ => destruct c eqn:Ec; [|discriminate] end. inversion H; subst.
+      repeat (apply andb_prop in Ec; destruct Ec as [Ec ?]). apply negb_true_iff in Ec.
+      repeat match goal with Hx : negb _ = true |- _ => apply negb_true_iff in Hx end.
+      match goal with Hx : (_ <? _) = true |- _ => apply Nat.ltb_lt in Hx end. repeat split; auto.
+    - match type of H with (if ?c then _ else _) = _ => destruct c eqn:Ec; [|discriminate] end. inversion H; subst.
+      repeat (apply andb_prop in Ec; destruct Ec as [Ec ?]). apply negb_true_iff in Ec.
+      repeat match goal with Hx : negb _ = true |- _ => apply negb_true_iff in Hx end.
+      match goal with Hx : (_ <? _) = true |- _ => apply Nat.ltb_lt in Hx end.
+      match goal with Hx : Nat.eqb _ _ = true |- _ => apply Nat.eqb_eq in Hx end. repeat split; auto.
+    - match type of H with (if ?c then _ else _) = _ => destruct c eqn:Ec; [|discriminate] end. inversion H; subst.
+      apply andb_prop in Ec. destruct Ec as [Ec ?]. apply negb_true_iff in Ec. repeat split; auto.
+    - destruct (wstate s w) eqn:Ews; try discriminate.
+      destruct (head_for w (inflight s)) as [[i| |]|] eqn:Eh; try discriminate.
+      split; [reflexivity|]. split; [reflexivity|]. exists i. split; [reflexivity|].
+      destruct (bad i) eqn:Eb.
+      + left. inversion H; subst. split; reflexivity.
+      + right. destruct (nth_error chunks i) as [c|] eqn:En; [|discriminate]. inversion H; subst.
+        split; [reflexivity|]. exists c. split; reflexivity.
+    - destruct (wstate s w) eqn:Ews; try discriminate.
+      destruct (head_for w (inflight s)) as [[i| |]|] eqn:Eh; try discriminate. inversion H; subst. repeat split; auto.
+    - destruct (wstate s w) eqn:Ews; try discriminate.
+      destruct (head_for w (inflight s)) as [[i| |]|] eqn:Eh; try discriminate. inversion H; subst. repeat split; auto.
+    - destruct (mem w (open s)) eqn:Em; [|discriminate].
+      destruct (head_for w (results s)) as [[i o|st|]|] eqn:Eh; try discriminate.
+      destruct (flush _ _ _ _) as [[p c] wr] eqn:Efl. inversion H; subst.
+      split; [reflexivity|]. split; [reflexivity|]. exists i, o. split; [reflexivity|]. exists p, c, wr. split; [exact Efl | reflexivity].
+    - destruct (mem w (open s)) eqn:Em; [|discriminate].
+      destruct (head_for w (results s)) as [[i o|st|]|] eqn:Eh; try discriminate. inversion H; subst.
+      split; [reflexivity|]. split; [reflexivity|]. exists st. split; reflexivity.
+    - destruct (mem w (open s)) eqn:Em; [|discriminate].
+      destruct (head_for w (results s)) as [[i o|st|]|] eqn:Eh; try discriminate. inversion H; subst. repeat split; auto.
+  Qed.
 
-  Definition out_shape (s : state) (w : nat) : Prop :=
-    let es := map snd (ents w (results s)) in
-    match wstate s w with
-    | Done => if mem w (open s)
-              then exists rs st, es = rs ++ [MFin st] /\ forallb is_result rs = true
-              else es = []
-    | _ => forallb is_result es = true /\ mem w (open s) = true
-    end.
-
-  Record inv2 (s : state) : Prop := mkInv2 {
-    j_in_lt : forall x, In x (inflight s) -> fst x < W;
-    j_out_lt : forall x, In x (results s) -> fst x < W;
-    j_q_lt : forall w, In w (queue s) -> w < W;
-    j_in : forall w, w < W -> in_shape s w;
-    j_out : forall w, w < W -> out_shape s w;
-    j_pills : pills s = npills (inflight s) + ndone (wstate s) /\ pills s <= W;
-    j_pill_next : 0 < pills s -> next s = C;
-    j_rdone : rdone s = Nat.eqb (pills s) W;
-    j_open : NoDup (open s) /\ (forall w, In w (open s) -> w < W);
-    j_count : length (flight s) + cur s = next s;
-    j_nofail : failed s = false
+  (** ---- L0: basic facts *)
+  Record binv (s : state) : Prop := mkB {
+    b_in : forall x, In x (inflight s) -> fst x < W;
+    b_out : forall x, In x (results s) -> fst x < W;
+    b_q : forall w, In w (queue s) -> w < W;
+    b_open_nd : NoDup (open s);
+    b_open_lt : forall w, In w (open s) -> w < W;
+    b_pills : pills s <= W;
+    b_rd : rdone s = false -> pills s < W;
+    b_pn : 0 < pills s -> next s = C /\ rfn s = false;
+    b_rf : forall k, rfail = Some k -> next s <= k;
+    b_ff : ffail = true -> open s = seq 0 W;
+    b_nc : next s <= C
   }.
+
+  Lemma in_remove1 w : forall q x, In x (remove1 w q) -> In x q.
+  Proof.
+    induction q as [|y t IH]; cbn; [tauto|]. intros x. destruct (Nat.eqb y w); [intros H; right; exact H|].
+    intros [H|H]; [left; exact H | right; apply IH; exact H].
+  Qed.
+
+  Lemma in_drop_for {M} w : forall (l : list (nat * M)) x, In x (drop_for w l) -> In x l.
+  Proof.
+    induction l as [|[v m] t IH]; cbn; [tauto|]. intros x. destruct (Nat.eqb v w); [intros H; right; exact H|].
+    intros [H|H]; [left; exact H | right; apply IH; exact H].
+  Qed.
+
+  Lemma NoDup_remove1 w : forall q, NoDup q -> NoDup (remove1 w q).
+  Proof.
+    induction q as [|y t IH]; intros H; cbn; [constructor|]. inversion H; subst.
+    destruct (Nat.eqb y w); [assumption|]. constructor; [intros Hin; apply in_remove1 in Hin; contradiction | apply IH; assumption].
+  Qed.
+
+  Lemma mem_in w l : mem w l = true <-> In w l.
+  Proof.
+    unfold mem. rewrite existsb_exists. split.
+    - intros (x & Hx & He). apply Nat.eqb_eq in He. subst. exact Hx.
+    - intros H. exists w. split; [exact H | apply Nat.eqb_refl].
+  Qed.
+
+  Ltac fields := unfold stp; cbn [next rdone pills queue inflight wstate wacc results pending cur written macc open failed].
+
+  Lemma binv_init : binv init.
+  Proof.
+    constructor; cbn; try (intros ? []); try lia; auto.
+    all: try apply seq_NoDup.
+    all: try (intros w Hw; apply in_seq in Hw; lia).
+    all: try (intros; lia).
+  Qed.
+
+  Lemma rfn_next s s' : next s' = next s -> rfn s' = rfn s.
+  Proof. intros H. unfold reader_fails_now. rewrite H. reflexivity. Qed.
+
+  Lemma binv_step s l s' : binv s -> step s l = Some s' -> binv s'.
+  Proof.
+    intros [Hin Hout Hq Hnd Hlt Hp Hrd Hpn Hrf Hff Hnc] Hstep.
+    destruct (step_inv _ _ _ Hstep) as [Hf Hc].
+    destruct l as [w|w|w| |w|w|w|w|w|w|].
+    - destruct Hc as (Hff' & Hw & Hws & ->). constructor; fields; auto.
+      intros v Hv. apply in_app_or in Hv. destruct Hv as [Hv|[<-|[]]]; auto.
+    - destruct Hc as (Hff' & Hr & Hfn & Hlt' & Hm & ->). constructor; fields; auto; try lia; try congruence.
+      all: try (intros x Hx; apply in_app_or in Hx; destruct Hx as [Hx|[<-|[]]]; auto; cbn; apply Hq; apply mem_in; exact Hm).
+      all: try (intros v Hv; apply Hq; eapply in_remove1; exact Hv).
+      all: try (intros k Hk; pose proof (Hrf k Hk); unfold reader_fails_now in Hfn; rewrite Hk in Hfn; apply Nat.eqb_neq in Hfn; lia).
+    - destruct Hc as (Hff' & Hr & Hfn & Hn & Hpl & Hm & ->). constructor; fields; auto; try lia; try congruence.
+      all: try (intros x Hx; apply in_app_or in Hx; destruct Hx as [Hx|[<-|[]]]; auto; cbn; apply Hq; apply mem_in; exact Hm).
+      all: try (intros v Hv; apply Hq; eapply in_remove1; exact Hv).
+      all: try (intros He; apply Nat.eqb_neq in He; lia).
+      all: try (intros _; split; [exact Hn|]; rewrite <- Hfn; apply rfn_next; reflexivity).
+    - destruct Hc as (Hff' & Hr & Hfn & ->). constructor; fields; auto; try lia; try congruence; try discriminate.
+      all: try (intros x Hx; apply in_app_or in Hx; destruct Hx as [Hx|Hx]; auto; apply in_map_iff in Hx; destruct Hx as (v & <- & Hv);
+                cbn; apply in_seq in Hv; lia).
+    - destruct Hc as (Hff' & Hws & i & Hh & [(Hb & ->)|(Hb & c & Hc' & ->)]); constructor; fields; auto; try congruence.
+      all: try (intros x Hx; apply Hin; eapply in_drop_for; exact Hx).
+      all: intros x Hx; apply in_app_or in Hx; destruct Hx as [Hx|[<-|[]]]; auto; cbn;
+           destruct (head_drop w _ _ Hh) as (a & b & Hl & _); apply (Hin (w, MChunk i)); rewrite Hl; apply in_or_app; right; left; reflexivity.
+    - destruct Hc as (Hff' & Hws & Hh & ->). constructor; fields; auto; try congruence.
+      all: try (intros x Hx; apply Hin; eapply in_drop_for; exact Hx).
+      all: intros x Hx; apply in_app_or in Hx; destruct Hx as [Hx|[<-|[]]]; auto; cbn;
+        destruct (head_drop w _ _ Hh) as (a & b & Hl & _); apply (Hin (w, MPill)); rewrite Hl; apply in_or_app; right; left; reflexivity.
+    - destruct Hc as (Hff' & Hws & Hh & ->). constructor; fields; auto; try congruence.
+      all: try (intros x Hx; apply Hin; eapply in_drop_for; exact Hx).
+      all: intros x Hx; apply in_app_or in Hx; destruct Hx as [Hx|[<-|[]]]; auto; cbn;
+        destruct (head_drop w _ _ Hh) as (a & b & Hl & _); apply (Hin (w, MErrIn)); rewrite Hl; apply in_or_app; right; left; reflexivity.
+    - destruct Hc as (Hff' & Hm & i & o & Hh & p & c & wr & Hfl & ->). constructor; fields; auto; try congruence.
+      all: intros x Hx; apply Hout; eapply in_drop_for; exact Hx.
+    - destruct Hc as (Hff' & Hm & st & Hh & ->). constructor; fields; auto; try congruence.
+      all: try (intros x Hx; apply Hout; eapply in_drop_for; exact Hx).
+      all: try (apply NoDup_remove1; exact Hnd).
+      all: intros v Hv; apply Hlt; eapply in_remove1; exact Hv.
+    - destruct Hc as (Hff' & Hm & Hh & ->). constructor; fields; auto; try congruence.
+      all: intros x Hx; apply Hout; eapply in_drop_for; exact Hx.
+    - destruct Hc as (Hff' & ->). constructor; fields; auto.
+  Qed.
+
+  (** ---- L1: workers and the result pipes *)
+  Definition is_fin (m : msg_out O S) : bool := match m with MFin _ => true | _ => false end.
+  Definition is_end (m : msg_out O S) : bool := match m with MResult _ _ => false | _ => true end.
+  Definition has_fin (w : nat) (l : list (nat * msg_out O S)) : bool := existsb is_fin (map snd (ents w l)).
+  Definition has_end (w : nat) (l : list (nat * msg_out O S)) : bool := existsb is_end (map snd (ents w l)).
+
+  Record oinv (s : state) : Prop := mkOI {
+    o_live : forall w, w < W -> wstate s w <> Done -> mem w (open s) = true /\ has_fin w (results s) = false;
+    o_in : forall x, In x (results s) -> mem (fst x) (open s) = true;
+    o_finlast : forall w a b st, ents w (results s) = a ++ (w, MFin st) :: b -> b = [];
+    o_done : failed s = false -> forall w, w < W -> wstate s w = Done -> mem w (open s) = true -> has_end w (results s) = true
+  }.
+
+  Lemma ents_other_single {M} v w (m : M) (l : list (nat * M)) : v <> w -> ents v (l ++ [(w, m)]) = ents v l.
+  Proof. intros H. rewrite ents_app, (ents_single_other v w m H), app_nil_r. reflexivity. Qed.
+
+  Lemma ents_same_single {M} w (m : M) (l : list (nat * M)) : ents w (l ++ [(w, m)]) = ents w l ++ [(w, m)].
+  Proof. rewrite ents_app, ents_single_same. reflexivity. Qed.
+
+  Lemma in_ents {M} w (l : list (nat * M)) x : In x (ents w l) <-> In x l /\ fst x = w.
+  Proof. unfold ents. rewrite filter_In. rewrite Nat.eqb_eq. tauto. Qed.
+
+  Lemma mem_remove1_other v w : v <> w -> forall l, mem v (remove1 w l) = mem v l.
+  Proof.
+    intros Hne. induction l as [|x t IH]; [reflexivity|]. cbn [remove1]. destruct (Nat.eqb x w) eqn:E.
+    - apply Nat.eqb_eq in E. subst x. unfold mem. cbn [existsb]. assert (E' : Nat.eqb v w = false) by (apply Nat.eqb_neq; exact Hne).
+      rewrite E'. reflexivity.
+    - unfold mem in *. cbn [existsb]. rewrite IH. reflexivity.
+  Qed.
+
+  Lemma mem_remove1_same w : forall l, NoDup l -> mem w (remove1 w l) = false.
+  Proof.
+    induction l as [|x t IH]; intros Hnd; [reflexivity|]. inversion Hnd; subst. cbn [remove1]. destruct (Nat.eqb x w) eqn:E.
+    - apply Nat.eqb_eq in E. subst x. destruct (mem w t) eqn:Em; [|reflexivity]. apply mem_in in Em. contradiction.
+    - unfold mem in *. cbn [existsb]. rewrite (Nat.eqb_sym w x), E. cbn. apply IH. assumption.
+  Qed.
+
+  Lemma app_single_split {T} (l a b : list T) x y : l ++ [x] = a ++ y :: b -> b = [] \/ In y l.
+  Proof.
+    intros H. destruct b as [|z b'] using rev_ind; [left; reflexivity|]. right. clear IHb'.
+    replace (a ++ y :: b' ++ [z]) with ((a ++ y :: b') ++ [z]) in H by (rewrite <- app_assoc; reflexivity).
+    apply app_inj_tail in H. destruct H as [H _]. subst l. apply in_or_app. right. left. reflexivity.
+  Qed.
+
+  Lemma has_fin_in w l : has_fin w l = true <-> exists st, In (w, MFin st) (ents w l).
+  Proof.
+    unfold has_fin. rewrite existsb_exists. split.
+    - intros (m & Hm & Hf). apply in_map_iff in Hm. destruct Hm as ([v m'] & Hs & Hin). cbn in Hs. subst m'.
+      destruct m as [| st |]; try discriminate. exists st. pose proof (proj1 (in_ents w l (v, MFin st)) Hin) as [_ Hv]. cbn in Hv. subst v. exact Hin.
+    - intros (st & Hin). exists (MFin st). split; [|reflexivity]. apply in_map_iff. exists (w, MFin st). split; [reflexivity | exact Hin].
+  Qed.
+
+  Lemma has_fin_head w l st : head_for w l = Some (MFin st) -> has_fin w l = true.
+  Proof. intros H. apply has_fin_in. exists st. rewrite (ents_head w l _ H). left. reflexivity. Qed.
+
+  Lemma oinv_init : oinv init.
+  Proof.
+    constructor; cbn [init next rdone pills queue inflight wstate wacc results pending cur written macc open failed].
+    - intros w Hw _. split; [|reflexivity]. apply mem_in. apply in_seq. lia.
+    - intros x [].
+    - intros w a b st H. destruct a; discriminate.
+    - intros _ w Hw H. discriminate.
+  Qed.
+
+  Lemma oinv_step s l s' : binv s -> oinv s -> step s l = Some s' -> oinv s'.
+  Proof.
+    intros HB [Hlive Hino Hfl Hdone] Hstep.
+    destruct (step_inv _ _ _ Hstep) as [Hf Hc].
+    destruct l as [w|w|w| |w|w|w|w|w|w|].
+    - (* LReq *) destruct Hc as (_ & Hw & Hws & ->). constructor; fields; auto.
+      + intros v Hv Hnd. unfold upd in Hnd. destruct (Nat.eqb v w) eqn:E.
+        * apply Nat.eqb_eq in E. subst v. apply Hlive; [exact Hw | congruence].
+        * apply Hlive; assumption.
+      + intros _ v Hv Hd. unfold upd in Hd. destruct (Nat.eqb v w); [discriminate|]. apply Hdone; assumption.
+    - destruct Hc as (_ & _ & _ & _ & _ & ->). constructor; fields; auto.
+    - destruct Hc as (_ & _ & _ & _ & _ & _ & ->). constructor; fields; auto.
+    - destruct Hc as (_ & _ & _ & ->). constructor; fields; auto.
+    - (* LTake *)
+      destruct Hc as (_ & Hws & i & Hh & Hcase).
+      assert (Hw : w < W).
+      { destruct (head_drop w _ _ Hh) as (a & b & Hl & _). apply (b_in _ HB (w, MChunk i)). rewrite Hl. apply in_or_app. right. left. reflexivity. }
+      destruct (Hlive w Hw ltac:(congruence)) as [Hmo Hnf].
+      assert (Hgen : forall m st' wa', is_fin m = false ->
+                oinv (stp s (next s) (rdone s) (pills s) (queue s) (drop_for w (inflight s)) (upd (wstate s) w st') wa' (results s ++ [(w, m)]) false) \/ True) by (intros; right; exact I).
+      clear Hgen.
+      assert (Hcommon : forall m st' wa', is_fin m = false -> (st' = Done -> is_end m = true) ->
+                oinv (stp s (next s) (rdone s) (pills s) (queue s) (drop_for w (inflight s)) (upd (wstate s) w st') wa' (results s ++ [(w, m)]) false)).
+      { intros m st' wa' Hnfm Hend. constructor; fields.
+        - intros v Hv Hnd. unfold upd in Hnd. destruct (Nat.eqb v w) eqn:E.
+          + apply Nat.eqb_eq in E. subst v. split; [exact Hmo|]. unfold has_fin. rewrite ents_same_single, map_app, existsb_app. cbn.
+            unfold has_fin in Hnf. rewrite Hnf, Hnfm. reflexivity.
+          + apply Nat.eqb_neq in E. unfold has_fin. rewrite (ents_other_single v w m _ E). apply Hlive; assumption.
+        - intros x Hx. apply in_app_or in Hx. destruct Hx as [Hx|[<-|[]]]; [apply Hino; exact Hx | exact Hmo].
+        - intros v a b st Hv. destruct (Nat.eq_dec v w) as [->|Hne].
+          + rewrite ents_same_single in Hv. destruct (app_single_split _ _ _ _ _ Hv) as [Hb|Hin]; [exact Hb|].
+            exfalso. assert (Ht : has_fin w (results s) = true) by (apply has_fin_in; exists st; exact Hin). congruence.
+          + rewrite (ents_other_single v w m _ Hne) in Hv. eapply Hfl. exact Hv.
+        - intros _ v Hv Hd Hm. unfold upd in Hd. destruct (Nat.eqb v w) eqn:E.
+          + apply Nat.eqb_eq in E. subst v. unfold has_end. rewrite ents_same_single, map_app, existsb_app. cbn. rewrite (Hend Hd). apply orb_true_r.
+          + apply Nat.eqb_neq in E. unfold has_end. rewrite (ents_other_single v w m _ E). apply Hdone; assumption. }
+      destruct Hcase as [(Hb & ->)|(Hb & c & Hc' & ->)]; apply Hcommon; auto; discriminate.
+    - (* LFin *)
+      destruct Hc as (_ & Hws & Hh & ->).
+      assert (Hw : w < W).
+      { destruct (head_drop w _ _ Hh) as (a & b & Hl & _). apply (b_in _ HB (w, MPill)). rewrite Hl. apply in_or_app. right. left. reflexivity. }
+      destruct (Hlive w Hw ltac:(congruence)) as [Hmo Hnf].
+      constructor; fields.
+      + intros v Hv Hnd. unfold upd in Hnd. destruct (Nat.eqb v w) eqn:E; [congruence|].
+        apply Nat.eqb_neq in E. unfold has_fin. rewrite (ents_other_single v w _ _ E). apply Hlive; assumption.
+      + intros x Hx. apply in_app_or in Hx. destruct Hx as [Hx|[<-|[]]]; [apply Hino; exact Hx | exact Hmo].
+      + intros v a b st Hv. destruct (Nat.eq_dec v w) as [->|Hne].
+        * rewrite ents_same_single in Hv. destruct (app_single_split _ _ _ _ _ Hv) as [Hb|Hin]; [exact Hb|].
+          exfalso. assert (Ht : has_fin w (results s) = true) by (apply has_fin_in; exists st; exact Hin). congruence.
+        * rewrite (ents_other_single v w _ _ Hne) in Hv. eapply Hfl. exact Hv.
+      + intros _ v Hv Hd Hm. unfold upd in Hd. destruct (Nat.eqb v w) eqn:E.
+        * apply Nat.eqb_eq in E. subst v. unfold has_end. rewrite ents_same_single, map_app, existsb_app. cbn. apply orb_true_r.
+        * apply Nat.eqb_neq in E. unfold has_end. rewrite (ents_other_single v w _ _ E). apply Hdone; assumption.
+    - (* LWErr *)
+      destruct Hc as (_ & Hws & Hh & ->).
+      assert (Hw : w < W).
+      { destruct (head_drop w _ _ Hh) as (a & b & Hl & _). apply (b_in _ HB (w, MErrIn)). rewrite Hl. apply in_or_app. right. left. reflexivity. }
+      destruct (Hlive w Hw ltac:(congruence)) as [Hmo Hnf].
+      constructor; fields.
+      + intros v Hv Hnd. unfold upd in Hnd. destruct (Nat.eqb v w) eqn:E; [congruence|].
+        apply Nat.eqb_neq in E. unfold has_fin. rewrite (ents_other_single v w _ _ E). apply Hlive; assumption.
+      + intros x Hx. apply in_app_or in Hx. destruct Hx as [Hx|[<-|[]]]; [apply Hino; exact Hx | exact Hmo].
+      + intros v a b st Hv. destruct (Nat.eq_dec v w) as [->|Hne].
+        * rewrite ents_same_single in Hv. destruct (app_single_split _ _ _ _ _ Hv) as [Hb|Hin]; [exact Hb|].
+          exfalso. assert (Ht : has_fin w (results s) = true) by (apply has_fin_in; exists st; exact Hin). congruence.
+        * rewrite (ents_other_single v w _ _ Hne) in Hv. eapply Hfl. exact Hv.
+      + intros _ v Hv Hd Hm. unfold upd in Hd. destruct (Nat.eqb v w) eqn:E.
+        * apply Nat.eqb_eq in E. subst v. unfold has_end. rewrite ents_same_single, map_app, existsb_app. cbn. apply orb_true_r.
+        * apply Nat.eqb_neq in E. unfold has_end. rewrite (ents_other_single v w _ _ E). apply Hdone; assumption.
+    - (* LRecv *)
+      destruct Hc as (_ & Hm & i & o & Hh & p & c & wr & Hfl' & ->).
+      pose proof (ents_head w _ _ Hh) as He.
+      constructor; fields.
+      + intros v Hv Hnd. destruct (Hlive v Hv Hnd) as [H1 H2]. split; [exact H1|].
+        destruct (Nat.eq_dec v w) as [->|Hne].
+        * unfold has_fin in *. rewrite He in H2. cbn in H2. exact H2.
+        * unfold has_fin in *. rewrite (ents_drop_other v w Hne). exact H2.
+      + intros x Hx. apply Hino. eapply in_drop_for. exact Hx.
+      + intros v a b st Hv. destruct (Nat.eq_dec v w) as [->|Hne].
+        * apply (Hfl w ((w, MResult i o) :: a) b st). rewrite He, Hv. reflexivity.
+        * rewrite (ents_drop_other v w Hne) in Hv. eapply Hfl. exact Hv.
+      + intros _ v Hv Hd Hmo. specialize (Hdone Hf v Hv Hd Hmo). destruct (Nat.eq_dec v w) as [->|Hne].
+        * unfold has_end in *. rewrite He in Hdone. cbn in Hdone. exact Hdone.
+        * unfold has_end in *. rewrite (ents_drop_other v w Hne). exact Hdone.
+    - (* LRecvFin *)
+      destruct Hc as (_ & Hm & st & Hh & ->).
+      pose proof (ents_head w _ _ Hh) as He.
+      assert (Htail : ents w (drop_for w (results s)) = []) by (apply (Hfl w [] _ st); exact He).
+      assert (Hwd : forall v, v < W -> wstate s v <> Done -> v <> w).
+      { intros v Hv Hnd ->. destruct (Hlive w Hv Hnd) as [_ H2]. rewrite (has_fin_head _ _ _ Hh) in H2. discriminate. }
+      constructor; fields.
+      + intros v Hv Hnd. pose proof (Hwd v Hv Hnd) as Hne. destruct (Hlive v Hv Hnd) as [H1 H2].
+        split; [rewrite (mem_remove1_other v w Hne); exact H1|]. unfold has_fin in *. rewrite (ents_drop_other v w Hne). exact H2.
+      + intros x Hx. destruct (Nat.eq_dec (fst x) w) as [Hxw|Hne].
+        * exfalso. assert (Hin : In x (ents w (drop_for w (results s)))) by (apply in_ents; split; assumption). rewrite Htail in Hin. exact Hin.
+        * rewrite (mem_remove1_other _ w Hne). apply Hino. eapply in_drop_for. exact Hx.
+      + intros v a b st' Hv. destruct (Nat.eq_dec v w) as [->|Hne].
+        * rewrite Htail in Hv. destruct a; discriminate.
+        * rewrite (ents_drop_other v w Hne) in Hv. eapply Hfl. exact Hv.
+      + intros _ v Hv Hd Hmo. destruct (Nat.eq_dec v w) as [->|Hne].
+        * rewrite (mem_remove1_same w _ (b_open_nd _ HB)) in Hmo. discriminate.
+        * rewrite (mem_remove1_other v w Hne) in Hmo. specialize (Hdone Hf v Hv Hd Hmo).
+          unfold has_end in *. rewrite (ents_drop_other v w Hne). exact Hdone.
+    - (* LRecvErr *)
+      destruct Hc as (_ & Hm & Hh & ->).
+      pose proof (ents_head w _ _ Hh) as He.
+      constructor; fields.
+      + intros v Hv Hnd. destruct (Hlive v Hv Hnd) as [H1 H2]. split; [exact H1|].
+        destruct (Nat.eq_dec v w) as [->|Hne].
+        * unfold has_fin in *. rewrite He in H2. cbn in H2. exact H2.
+        * unfold has_fin in *. rewrite (ents_drop_other v w Hne). exact H2.
+      + intros x Hx. apply Hino. eapply in_drop_for. exact Hx.
+      + intros v a b st Hv. destruct (Nat.eq_dec v w) as [->|Hne].
+        * apply (Hfl w ((w, MErrOut) :: a) b st). rewrite He, Hv. reflexivity.
+        * rewrite (ents_drop_other v w Hne) in Hv. eapply Hfl. exact Hv.
+      + discriminate.
+    - (* LFmtFail *)
+      destruct Hc as (_ & ->). constructor; fields; auto; try discriminate.
+  Qed.
+
+  (** ---- L2: shape of the reader->worker pipes *)
+  Definition rfailed (s : state) : bool := rdone s && (pills s <? W).
+  Definition non_err (m : msg_in) : bool := match m with MErrIn => false | _ => true end.
+
+  Definition in_shape (s : state) (w : nat) : Prop :=
+    exists base errs, ents w (inflight s) = base ++ errs /\
+      (rfailed s = false -> errs = []) /\
+      (rfailed s = true -> errs = [(w, MErrIn)] \/ (errs = [] /\ wstate s w = Done)) /\
+      match wstate s w with
+      | Waiting => (qcount w (queue s) = 1 /\ base = []) \/
+                   (qcount w (queue s) = 0 /\ exists m, base = [(w, m)] /\ non_err m = true)
+      | Idle => qcount w (queue s) = 0 /\ base = []
+      | Done => base = [] /\ (rfailed s = false -> qcount w (queue s) = 0)
+      end.
+  Definition pinv (s : state) : Prop := forall w, w < W -> in_shape s w.
+
+  Lemma qcount_single_same w : qcount w [w] = 1.
+  Proof. unfold qcount. cbn. rewrite Nat.eqb_refl. reflexivity. Qed.
+  Lemma qcount_single_other v w : v <> w -> qcount v [w] = 0.
+  Proof. intros H. unfold qcount. cbn. assert (E : Nat.eqb v w = false) by (apply Nat.eqb_neq; exact H). rewrite E. reflexivity. Qed.
+
+  Lemma ents_broadcast w : w < W -> ents w (map (fun v => (v, MErrIn)) (seq 0 W)) = [(w, MErrIn)].
+  Proof.
+    intros Hw. assert (H : forall n a, a <= w < a + n -> ents w (map (fun v => (v, MErrIn)) (seq a n)) = [(w, MErrIn)]).
+    { induction n as [|n IH]; intros a Ha; [lia|]. cbn [seq map ents filter fst]. destruct (Nat.eqb a w) eqn:E.
+      - apply Nat.eqb_eq in E. subst a. f_equal.
+        assert (Hn : forall n b, w < b -> filter (fun x : nat * msg_in => Nat.eqb (fst x) w) (map (fun v => (v, MErrIn)) (seq b n)) = []).
+        { induction n0 as [|n0 IH0]; intros b Hb; [reflexivity|]. cbn [seq map filter fst].
+          assert (E' : Nat.eqb b w = false) by (apply Nat.eqb_neq; lia). rewrite E'. apply IH0. lia. }
+        apply Hn. lia.
+      - apply Nat.eqb_neq in E. apply IH. lia. }
+    apply H. lia.
+  Qed.
+
+  Lemma pinv_init : pinv init.
+  Proof.
+    intros w Hw. exists [], []. cbn. repeat split; auto. unfold rfailed; cbn. intros H. discriminate.
+  Qed.
+
+  Lemma shape_nonerr s w m : in_shape s w -> In (w, m) (inflight s) -> non_err m = true ->
+    wstate s w = Waiting /\ qcount w (queue s) = 0 /\ exists errs, ents w (inflight s) = (w, m) :: errs /\ (forall x, In x errs -> snd x = MErrIn).
+  Proof.
+    intros (base & errs & He & Hf & Ht & Hs) Hin Hne.
+    assert (Hin' : In (w, m) (base ++ errs)) by (rewrite <- He; apply in_ents; split; [exact Hin | reflexivity]).
+    assert (Herrs : forall x, In x errs -> snd x = MErrIn).
+    { destruct (rfailed s); [destruct (Ht eq_refl) as [->|[-> _]] | rewrite (Hf eq_refl)]; intros x Hx; try destruct Hx as [<-|[]]; try reflexivity; contradiction. }
+    apply in_app_or in Hin'. destruct Hin' as [Hb|Hb]; [|apply Herrs in Hb; cbn in Hb; subst m; discriminate].
+    destruct (wstate s w).
+    - destruct Hs as [_ ->]. contradiction.
+    - destruct Hs as [[_ ->]|(Hq & m' & -> & Hm')]; [contradiction|]. destruct Hb as [Hb|[]]. inversion Hb; subst m'.
+      split; [reflexivity|]. split; [exact Hq|]. exists errs. split; [rewrite He; reflexivity | exact Herrs].
+    - destruct Hs as [-> _]. contradiction.
+  Qed.
+
+  Lemma shape_queued s w : in_shape s w -> mem w (queue s) = true -> rdone s = false ->
+    wstate s w = Waiting /\ qcount w (queue s) = 1 /\ ents w (inflight s) = [].
+  Proof.
+    intros (base & errs & He & Hf & Ht & Hs) Hm Hr. apply mem_qcount in Hm.
+    assert (Hrf : rfailed s = false) by (unfold rfailed; rewrite Hr; reflexivity).
+    rewrite (Hf Hrf), app_nil_r in He. destruct (wstate s w).
+    - destruct Hs as [Hq _]. lia.
+    - destruct Hs as [[Hq ->]|(Hq & _)]; [|lia]. repeat split; auto.
+    - destruct Hs as [_ Hq]. specialize (Hq Hrf). lia.
+  Qed.
+
+  Lemma pinv_step s l s' : binv s -> pinv s -> step s l = Some s' -> pinv s'.
+  Proof.
+    intros HB HP Hstep v Hv. pose proof (HP v Hv) as Hsv.
+    destruct (step_inv _ _ _ Hstep) as [Hf Hc].
+    destruct l as [w|w|w| |w|w|w|w|w|w|].
+    - (* LReq *) destruct Hc as (_ & Hw & Hws & ->). destruct Hsv as (base & errs & He & Hfa & Htr & Hs).
+      exists base, errs. unfold in_shape, rfailed in *; fields. repeat split; auto.
+      + intros H. destruct (Htr H) as [H1|[H1 H2]]; [left; exact H1|]. right. split; [exact H1|]. unfold upd. destruct (Nat.eqb v w) eqn:E; [|exact H2].
+        apply Nat.eqb_eq in E. subst v. congruence.
+      + unfold upd. destruct (Nat.eqb v w) eqn:E.
+        * apply Nat.eqb_eq in E. subst v. rewrite Hws in Hs. destruct Hs as [Hq ->]. left. rewrite qcount_app, qcount_single_same. split; [lia | reflexivity].
+        * apply Nat.eqb_neq in E. rewrite qcount_app, (qcount_single_other v w E), Nat.add_0_r. exact Hs.
+    - (* LSend *) destruct Hc as (_ & Hr & Hfn & Hlt & Hm & ->).
+      assert (Hrf : rfailed s = false) by (unfold rfailed; rewrite Hr; reflexivity).
+      destruct (Nat.eq_dec v w) as [->|Hne].
+      + destruct (shape_queued s w Hsv Hm Hr) as (Hws & Hq & He).
+        exists [(w, MChunk (next s))], []. unfold in_shape, rfailed in *; fields. rewrite Hr. cbn [andb].
+        rewrite ents_same_single, He. repeat split; auto; try discriminate. rewrite Hws. right.
+        pose proof (qcount_remove_same w _ Hm). split; [lia|]. exists (MChunk (next s)). split; reflexivity.
+      + destruct Hsv as (base & errs & He & Hfa & Htr & Hs). exists base, errs. unfold in_shape, rfailed in *; fields.
+        rewrite (ents_other_single v w _ _ Hne), (qcount_remove_other v w Hne). repeat split; auto.
+    - (* LPill *) destruct Hc as (_ & Hr & Hfn & Hn & Hpl & Hm & ->).
+      assert (Hrf : rfailed s = false) by (unfold rfailed; rewrite Hr; reflexivity).
+      assert (Hrf' : Nat.eqb (Datatypes.S (pills s)) W && (Datatypes.S (pills s) <? W) = false).
+      { destruct (Nat.eqb (Datatypes.S (pills s)) W) eqn:E; [|reflexivity]. apply Nat.eqb_eq in E. cbn [andb]. apply Nat.ltb_ge. lia. }
+      destruct (Nat.eq_dec v w) as [->|Hne].
+      + destruct (shape_queued s w Hsv Hm Hr) as (Hws & Hq & He).
+        exists [(w, MPill)], []. unfold in_shape, rfailed in *; fields. rewrite Hrf'.
+        rewrite ents_same_single, He. repeat split; auto; try discriminate. rewrite Hws. right.
+        pose proof (qcount_remove_same w _ Hm). split; [lia|]. exists MPill. split; reflexivity.
+      + destruct Hsv as (base & errs & He & Hfa & Htr & Hs). exists base, errs. unfold in_shape, rfailed in *; fields. rewrite Hrf'.
+        rewrite (ents_other_single v w _ _ Hne), (qcount_remove_other v w Hne). rewrite Hr in *. cbn [andb] in *.
+        repeat split; auto; try discriminate.
+    - (* LRFail *) destruct Hc as (_ & Hr & Hfn & ->).
+      assert (Hrf : rfailed s = false) by (unfold rfailed; rewrite Hr; reflexivity).
+      destruct Hsv as (base & errs & He & Hfa & Htr & Hs). rewrite (Hfa Hrf), app_nil_r in He.
+      assert (Hp : pills s <? W = true) by (apply Nat.ltb_lt; apply (b_rd _ HB Hr)).
+      exists base, [(v, MErrIn)]. unfold in_shape, rfailed in *; fields. rewrite Hp. cbn [andb].
+      rewrite ents_app, (ents_broadcast v Hv), He. repeat split; auto; try discriminate.
+      destruct (wstate s v); auto. destruct Hs as [Hb Hq]. split; [exact Hb | discriminate].
+    - (* LTake *) destruct Hc as (_ & Hws & i & Hh & Hcase).
+      assert (Hgoal : forall st' wa' res', st' <> Waiting ->
+                in_shape (stp s (next s) (rdone s) (pills s) (queue s) (drop_for w (inflight s)) (upd (wstate s) w st') wa' res' false) v).
+      { intros st' wa' res' Hst'. destruct (Nat.eq_dec v w) as [->|Hne].
+        - assert (Hinw : In (w, MChunk i) (inflight s)).
+          { destruct (head_drop w _ _ Hh) as (a & b & Hl & _). rewrite Hl. apply in_or_app. right. left. reflexivity. }
+          destruct (shape_nonerr s w _ Hsv Hinw eq_refl) as (_ & Hq & errs & He & Herrs).
+          destruct Hsv as (base0 & errs0 & He0 & Hfa & Htr & Hs). rewrite Hws in Hs.
+          assert (Hb0 : base0 = [(w, MChunk i)] /\ errs0 = errs).
+          { destruct Hs as [[Hq1 _]|(_ & m & -> & _)]; [lia|]. rewrite He in He0. cbn in He0. inversion He0; subst. split; reflexivity. }
+          destruct Hb0 as [-> ->].
+          exists [], errs. unfold in_shape, rfailed in *; fields.
+          rewrite (ents_head w _ _ Hh) in He. injection He as He'. unfold upd. rewrite Nat.eqb_refl. rewrite He'.
+          repeat split; auto.
+          all: try (intros H; destruct (Htr H) as [H1|[_ H2]]; [left; exact H1 | congruence]).
+          all: try (destruct st'; try contradiction; repeat split; auto).
+        - destruct Hsv as (base & errs & He & Hfa & Htr & Hs). exists base, errs. unfold in_shape, rfailed in *; fields.
+          rewrite (ents_drop_other v w Hne). unfold upd. assert (E : Nat.eqb v w = false) by (apply Nat.eqb_neq; exact Hne). rewrite E.
+          repeat split; auto. }
+      destruct Hcase as [(Hb & ->)|(Hb & c & Hc' & ->)]; apply Hgoal; discriminate.
+    - (* LFin *) destruct Hc as (_ & Hws & Hh & ->).
+      destruct (Nat.eq_dec v w) as [->|Hne].
+      + assert (Hinw : In (w, MPill) (inflight s)).
+        { destruct (head_drop w _ _ Hh) as (a & b & Hl & _). rewrite Hl. apply in_or_app. right. left. reflexivity. }
+        destruct (shape_nonerr s w _ Hsv Hinw eq_refl) as (_ & Hq & errs & He & Herrs).
+        destruct Hsv as (base0 & errs0 & He0 & Hfa & Htr & Hs). rewrite Hws in Hs.
+        assert (Hb0 : base0 = [(w, MPill)] /\ errs0 = errs).
+        { destruct Hs as [[Hq1 _]|(_ & m & -> & _)]; [lia|]. rewrite He in He0. cbn in He0. inversion He0; subst. split; reflexivity. }
+        destruct Hb0 as [-> ->].
+        exists [], errs. unfold in_shape, rfailed in *; fields.
+        rewrite (ents_head w _ _ Hh) in He. injection He as He'. unfold upd. rewrite Nat.eqb_refl. rewrite He'.
+        repeat split; auto.
+        all: intros H; destruct (Htr H) as [H1|[_ H2]]; [left; exact H1 | congruence].
+      + destruct Hsv as (base & errs & He & Hfa & Htr & Hs). exists base, errs. unfold in_shape, rfailed in *; fields.
+        rewrite (ents_drop_other v w Hne). unfold upd. assert (E : Nat.eqb v w = false) by (apply Nat.eqb_neq; exact Hne). rewrite E.
+        repeat split; auto.
+    - (* LWErr *) destruct Hc as (_ & Hws & Hh & ->).
+      destruct (Nat.eq_dec v w) as [->|Hne].
+      + destruct Hsv as (base & errs & He & Hfa & Htr & Hs). rewrite Hws in Hs.
+        pose proof (ents_head w _ _ Hh) as Heh.
+        assert (Hb : base = [] /\ errs = [(w, MErrIn)]).
+        { destruct Hs as [[_ ->]|(_ & m & -> & Hm)].
+          - cbn in He. split; [reflexivity|]. destruct (rfailed s) eqn:Erf.
+            + destruct (Htr eq_refl) as [->|[_ H2]]; [reflexivity | congruence].
+            + rewrite (Hfa eq_refl) in He. rewrite Heh in He. discriminate.
+          - rewrite Heh in He. cbn in He. inversion He; subst. discriminate. }
+        destruct Hb as [-> ->]. cbn in He.
+        assert (Hrf : rfailed s = true) by (destruct (rfailed s); [reflexivity | specialize (Hfa eq_refl); discriminate]).
+        exists [], []. unfold in_shape, rfailed in *; fields. rewrite Heh in He. injection He as He'. rewrite He'.
+        unfold upd. rewrite Nat.eqb_refl. repeat split; auto; try congruence.
+        all: try (intros _; right; split; reflexivity).
+      + destruct Hsv as (base & errs & He & Hfa & Htr & Hs). exists base, errs. unfold in_shape, rfailed in *; fields.
+        rewrite (ents_drop_other v w Hne). unfold upd. assert (E : Nat.eqb v w = false) by (apply Nat.eqb_neq; exact Hne). rewrite E.
+        repeat split; auto.
+    - destruct Hc as (_ & Hm & i & o & Hh & p & c & wr & Hfl' & ->). exact Hsv.
+    - destruct Hc as (_ & Hm & st & Hh & ->). exact Hsv.
+    - destruct Hc as (_ & Hm & Hh & ->). exact Hsv.
+    - destruct Hc as (_ & ->). exact Hsv.
+  Qed.
+
+  (** ---- L3: every pill goes to a different worker: pills = number of workers that hold a pill in
+      their pipe or have finished regularly *)
+  Definition is_pill (m : msg_in) : bool := match m with MPill => true | _ => false end.
+  Definition has_pill (w : nat) (l : list (nat * msg_in)) : bool := existsb is_pill (map snd (ents w l)).
+  Definition finished (s : state) (w : nat) : bool := negb (mem w (open s)) || has_fin w (results s).
+  Definition pilled (s : state) (w : nat) : bool := has_pill w (inflight s) || finished s w.
+  Definition kinv (s : state) : Prop := pills s = length (filter (pilled s) (seq 0 W)).
+
+  Lemma filter_flip (p p' : nat -> bool) w : forall l, NoDup l -> In w l -> p w = false -> p' w = true ->
+    (forall v, v <> w -> p' v = p v) -> length (filter p' l) = Datatypes.S (length (filter p l)).
+  Proof.
+    induction l as [|x t IH]; intros Hnd Hin Hp Hp' Hext; [contradiction|]. inversion Hnd; subst. cbn [filter].
+    destruct (Nat.eq_dec x w) as [->|Hne].
+    - rewrite Hp, Hp'. cbn [length]. f_equal. f_equal. apply filter_ext_in. intros v Hv. apply Hext. intros ->. contradiction.
+    - destruct Hin as [Hin|Hin]; [contradiction|]. rewrite (Hext x Hne). destruct (p x); cbn [length]; rewrite (IH H2 Hin Hp Hp' Hext); reflexivity.
+  Qed.
+
+  Lemma kinv_same s s' : pills s' = pills s -> (forall v, v < W -> pilled s' v = pilled s v) -> kinv s -> kinv s'.
+  Proof.
+    intros Hp Hext Hk. unfold kinv in *. rewrite Hp, Hk. f_equal. apply filter_ext_in. intros v Hv. apply in_seq in Hv. symmetry. apply Hext. lia.
+  Qed.
+
+  Lemma has_pill_other v w m l : v <> w -> has_pill v (l ++ [(w, m)]) = has_pill v l.
+  Proof. intros H. unfold has_pill. rewrite (ents_other_single v w m l H). reflexivity. Qed.
+  Lemma has_pill_same w m l : has_pill w (l ++ [(w, m)]) = has_pill w l || is_pill m.
+  Proof. unfold has_pill. rewrite ents_same_single, map_app, existsb_app. cbn. rewrite orb_false_r. reflexivity. Qed.
+  Lemma has_fin_other v w m l : v <> w -> has_fin v (l ++ [(w, m)]) = has_fin v l.
+  Proof. intros H. unfold has_fin. rewrite (ents_other_single v w m l H). reflexivity. Qed.
+  Lemma has_fin_same w m l : has_fin w (l ++ [(w, m)]) = has_fin w l || is_fin m.
+  Proof. unfold has_fin. rewrite ents_same_single, map_app, existsb_app. cbn. rewrite orb_false_r. reflexivity. Qed.
+  Lemma has_fin_drop_other v w l : v <> w -> has_fin v (drop_for w l) = has_fin v l.
+  Proof. intros H. unfold has_fin. rewrite (ents_drop_other v w H). reflexivity. Qed.
+  Lemma has_pill_drop_other v w l : v <> w -> has_pill v (drop_for w l) = has_pill v l.
+  Proof. intros H. unfold has_pill. rewrite (ents_drop_other v w H). reflexivity. Qed.
+  Lemma has_fin_drop_same w l m : head_for w l = Some m -> has_fin w l = is_fin m || has_fin w (drop_for w l).
+  Proof. intros H. unfold has_fin. rewrite (ents_head w l m H). reflexivity. Qed.
+  Lemma has_pill_broadcast v l : has_pill v (l ++ map (fun u => (u, MErrIn)) (seq 0 W)) = has_pill v l.
+  Proof.
+    unfold has_pill. rewrite ents_app, map_app, existsb_app.
+    assert (H : existsb is_pill (map snd (ents v (map (fun u => (u, MErrIn)) (seq 0 W)))) = false).
+    { generalize (seq 0 W). induction l0 as [|x t IH]; [reflexivity|]. cbn [map ents filter fst]. destruct (Nat.eqb x v); cbn; exact IH. }
+    rewrite H. apply orb_false_r.
+  Qed.
+
+  Lemma shape_errs_nopill (errs : list (nat * msg_in)) : (forall x, In x errs -> snd x = MErrIn) -> existsb is_pill (map snd errs) = false.
+  Proof.
+    intros H. induction errs as [|x t IH]; [reflexivity|]. cbn. rewrite (H x (or_introl eq_refl)). cbn. apply IH. intros y Hy. apply H. right. exact Hy.
+  Qed.
+
+  Lemma kinv_init : kinv init.
+  Proof.
+    unfold kinv. cbn [init pills]. symmetry. apply length_zero_iff_nil.
+    assert (H : forall l, (forall w, In w l -> w < W) -> filter (pilled init) l = []).
+    { induction l as [|x t IH]; intros Hl; [reflexivity|]. cbn [filter].
+      assert (Hm : mem x (seq 0 W) = true) by (apply mem_in; apply in_seq; specialize (Hl x (or_introl eq_refl)); lia).
+      assert (Hp : pilled init x = false).
+      { unfold pilled, finished. cbn [init inflight open results]. rewrite Hm. reflexivity. }
+      rewrite Hp. apply IH. intros w Hw. apply Hl. right. exact Hw. }
+    apply H. intros w Hw. apply in_seq in Hw. lia.
+  Qed.
+
+  Lemma kinv_step s l s' : binv s -> oinv s -> pinv s -> kinv s -> step s l = Some s' -> kinv s'.
+  Proof.
+    intros HB HO HP HK Hstep.
+    destruct (step_inv _ _ _ Hstep) as [Hf Hc].
+    destruct l as [w|w|w| |w|w|w|w|w|w|].
+    - destruct Hc as (_ & Hw & Hws & ->). apply (kinv_same s); auto.
+    - (* LSend *) destruct Hc as (_ & Hr & Hfn & Hlt & Hm & ->). apply (kinv_same s); auto. intros v Hv. unfold pilled, finished; fields.
+      destruct (Nat.eq_dec v w) as [->|Hne]; [rewrite has_pill_same; cbn; rewrite orb_false_r | rewrite (has_pill_other v w _ _ Hne)]; reflexivity.
+    - (* LPill *) destruct Hc as (_ & Hr & Hfn & Hn & Hpl & Hm & ->).
+      assert (Hw : w < W) by (apply (b_q _ HB); apply mem_in; exact Hm).
+      destruct (shape_queued s w (HP w Hw) Hm Hr) as (Hws & Hq & He).
+      destruct (o_live _ HO w Hw ltac:(congruence)) as [Hmo Hnf].
+      unfold kinv in *; fields. rewrite HK. symmetry. apply (filter_flip _ _ w).
+      + apply seq_NoDup.
+      + apply in_seq. lia.
+      + unfold pilled, finished, has_pill. rewrite He, Hmo, Hnf. reflexivity.
+      + unfold pilled; fields. rewrite has_pill_same. cbn. rewrite orb_true_r. reflexivity.
+      + intros v Hne. unfold pilled, finished; fields. rewrite (has_pill_other v w _ _ Hne). reflexivity.
+    - (* LRFail *) destruct Hc as (_ & Hr & Hfn & ->). apply (kinv_same s); auto. intros v Hv. unfold pilled, finished; fields.
+      rewrite has_pill_broadcast. reflexivity.
+    - (* LTake *) destruct Hc as (_ & Hws & i & Hh & Hcase).
+      assert (Hinw : In (w, MChunk i) (inflight s)).
+      { destruct (head_drop w _ _ Hh) as (a & b & Hl & _). rewrite Hl. apply in_or_app. right. left. reflexivity. }
+      assert (Hw : w < W) by (apply (b_in _ HB _ Hinw)).
+      destruct (shape_nonerr s w _ (HP w Hw) Hinw eq_refl) as (_ & Hq & errs & He & Herrs).
+      destruct (o_live _ HO w Hw ltac:(congruence)) as [Hmo Hnf].
+      assert (Hgoal : forall st' wa' m, is_fin m = false ->
+                kinv (stp s (next s) (rdone s) (pills s) (queue s) (drop_for w (inflight s)) st' wa' (results s ++ [(w, m)]) false)).
+      { intros st' wa' m Hm. apply (kinv_same s); auto. intros v Hv. unfold pilled, finished; fields.
+        destruct (Nat.eq_dec v w) as [->|Hne].
+        - rewrite has_fin_same, Hm, orb_false_r. f_equal. unfold has_pill. rewrite He. rewrite (ents_head w _ _ Hh) in He. injection He as He'.
+          rewrite He'. cbn. reflexivity.
+        - rewrite (has_fin_other v w _ _ Hne), (has_pill_drop_other v w _ Hne). reflexivity. }
+      destruct Hcase as [(Hb & ->)|(Hb & c & Hc' & ->)]; apply Hgoal; reflexivity.
+    - (* LFin *) destruct Hc as (_ & Hws & Hh & ->).
+      assert (Hinw : In (w, MPill) (inflight s)).
+      { destruct (head_drop w _ _ Hh) as (a & b & Hl & _). rewrite Hl. apply in_or_app. right. left. reflexivity. }
+      assert (Hw : w < W) by (apply (b_in _ HB _ Hinw)).
+      apply (kinv_same s); auto. intros v Hv. unfold pilled, finished; fields.
+      destruct (Nat.eq_dec v w) as [->|Hne].
+      + rewrite has_fin_same. cbn. rewrite !orb_true_r. unfold has_pill. rewrite (ents_head w _ _ Hh). cbn. reflexivity.
+      + rewrite (has_fin_other v w _ _ Hne), (has_pill_drop_other v w _ Hne). reflexivity.
+    - (* LWErr *) destruct Hc as (_ & Hws & Hh & ->).
+      apply (kinv_same s); auto. intros v Hv. unfold pilled, finished; fields.
+      destruct (Nat.eq_dec v w) as [->|Hne].
+      + rewrite has_fin_same. cbn. rewrite orb_false_r. f_equal. unfold has_pill. rewrite (ents_head w _ _ Hh). cbn. reflexivity.
+      + rewrite (has_fin_other v w _ _ Hne), (has_pill_drop_other v w _ Hne). reflexivity.
+    - (* LRecv *) destruct Hc as (_ & Hm & i & o & Hh & p & c & wr & Hfl' & ->).
+      apply (kinv_same s); auto. intros v Hv. unfold pilled, finished; fields.
+      destruct (Nat.eq_dec v w) as [->|Hne]; [rewrite (has_fin_drop_same w _ _ Hh); reflexivity | rewrite (has_fin_drop_other v w _ Hne); reflexivity].
+    - (* LRecvFin *) destruct Hc as (_ & Hm & st & Hh & ->).
+      apply (kinv_same s); auto. intros v Hv. unfold pilled, finished; fields.
+      destruct (Nat.eq_dec v w) as [->|Hne].
+      + rewrite (mem_remove1_same w _ (b_open_nd _ HB)). rewrite (has_fin_head _ _ _ Hh). cbn. rewrite !orb_true_r. reflexivity.
+      + rewrite (mem_remove1_other v w Hne), (has_fin_drop_other v w _ Hne). reflexivity.
+    - (* LRecvErr *) destruct Hc as (_ & Hm & Hh & ->).
+      apply (kinv_same s); auto. intros v Hv. unfold pilled, finished; fields.
+      destruct (Nat.eq_dec v w) as [->|Hne]; [rewrite (has_fin_drop_same w _ _ Hh); reflexivity | rewrite (has_fin_drop_other v w _ Hne); reflexivity].
+    - destruct Hc as (_ & ->). apply (kinv_same s); auto.
+  Qed.
+
+  (** ---- all invariants together *)
+  Definition linv (s : state) : Prop := inv s /\ binv s /\ oinv s /\ pinv s /\ kinv s.
+
+  Lemma linv_init : linv init.
+  Proof.
+    split; [apply inv_init|]. split; [apply binv_init|]. split; [apply oinv_init|]. split; [apply pinv_init | apply kinv_init].
+  Qed.
+
+  Lemma linv_step s l s' : linv s -> step s l = Some s' -> linv s'.
+  Proof.
+    intros (H1 & H2 & H3 & H4 & H5) Hs.
+    split; [eapply inv_step; eauto|]. split; [eapply binv_step; eauto|]. split; [eapply oinv_step; eauto|].
+    split; [eapply pinv_step; eauto | eapply kinv_step; eauto].
+  Qed.
+
+  Lemma linv_reachable s : reachable A O S f g szero sadd chunks W bad rfail ffail s -> linv s.
+  Proof.
+    intros [ls Hr]. revert Hr. generalize linv_init. generalize init. induction ls as [|l t IH]; intros s0 H0 Hr; cbn in Hr.
+    - inversion Hr; subst. exact H0.
+    - destruct (step s0 l) as [s1|] eqn:E; [|discriminate]. eapply IH; [eapply linv_step; eauto | exact Hr].
+  Qed.
+
+  Lemma filter_len_le (p : nat -> bool) : forall l, length (filter p l) <= length l.
+  Proof. induction l as [|y t IH]; cbn; [lia|]. destruct (p y); cbn; lia. Qed.
+
+  Lemma filter_all (p : nat -> bool) : forall l, length (filter p l) = length l -> forall x, In x l -> p x = true.
+  Proof.
+    induction l as [|y t IH]; intros Hlen x Hx; [contradiction|]. cbn [filter] in Hlen. destruct (p y) eqn:Ep.
+    - cbn [length] in Hlen. destruct Hx as [<-|Hx]; [exact Ep | apply IH; [lia | exact Hx]].
+    - pose proof (filter_len_le p t). cbn [length] in Hlen. lia.
+  Qed.
+
+  Lemma all_pilled s : kinv s -> pills s = W -> forall w, w < W -> pilled s w = true.
+  Proof.
+    intros HK Hp w Hw. apply (filter_all (pilled s) (seq 0 W)); [rewrite seq_length, <- HK; exact Hp | apply in_seq; lia].
+  Qed.
+
+  (** ---- no deadlock: in every reachable state that is not terminal some step is enabled --
+      with every fault pattern *)
+  Theorem progress s : linv s -> terminal s = false -> exists l s', step s l = Some s'.
+  Proof.
+    intros (HI & HB & HO & HP & HK) Hterm. unfold terminal in Hterm. apply orb_false_iff in Hterm. destruct Hterm as [Hf Hopen].
+    destruct (open s) as [|w ow] eqn:Eo; [discriminate|].
+    assert (Hmo : mem w (open s) = true) by (rewrite Eo; apply mem_in; left; reflexivity).
+    assert (Hw : w < W) by (apply (b_open_lt _ HB); rewrite Eo; left; reflexivity).
+    unfold Runner.step. rewrite Hf.
+    destruct ffail eqn:Eff.
+    { exists LFmtFail. eexists. reflexivity. }
+    destruct (head_for w (results s)) as [[i o|st|]|] eqn:Ehr.
+    - exists (LRecv w). rewrite Hmo, Ehr. destruct (flush _ _ _ _) as [[p c] wr]. eexists. reflexivity.
+    - exists (LRecvFin w). rewrite Hmo, Ehr. eexists. reflexivity.
+    - exists (LRecvErr w). rewrite Hmo, Ehr. eexists. reflexivity.
+    - apply head_none in Ehr.
+      destruct (wstate s w) eqn:Ews.
+      + exists (LReq w). assert (E : w <? W = true) by (apply Nat.ltb_lt; exact Hw). rewrite E, Ews. eexists. reflexivity.
+      + destruct (head_for w (inflight s)) as [[i| |]|] eqn:Ehi.
+        * exists (LTake w). rewrite Ews, Ehi. destruct (bad i); [eexists; reflexivity|].
+          assert (Hi : i < C).
+          { destruct (head_drop w _ _ Ehi) as (a & b & Hl & _). destruct HI as [Hr _ _ Hb _ _ _]. specialize (Hb i).
+            assert (Hin : In i (flight s)).
+            { unfold flight. apply in_or_app. left. rewrite Hl. rewrite chunk_ids_app. apply in_or_app. right. cbn. left. reflexivity. }
+            specialize (Hb Hin). lia. }
+          apply nth_error_Some in Hi. destruct (nth_error chunks i); [eexists; reflexivity | contradiction].
+        * exists (LFin w). rewrite Ews, Ehi. eexists. reflexivity.
+        * exists (LWErr w). rewrite Ews, Ehi. eexists. reflexivity.
+        * apply head_none in Ehi. destruct (HP w Hw) as (base & errs & He & Hfa & Htr & Hs). rewrite Ews in Hs. rewrite Ehi in He.
+          symmetry in He. apply app_eq_nil in He. destruct He as [-> ->].
+          destruct Hs as [[Hq _]|(_ & m & Hb & _)]; [|discriminate].
+          assert (Hmq : mem w (queue s) = true) by (apply mem_qcount; lia).
+          destruct (rdone s) eqn:Erd.
+          -- exfalso. destruct (Nat.eq_dec (pills s) W) as [Hpw|Hpw].
+             ++ pose proof (all_pilled s HK Hpw w Hw) as Hpl. unfold pilled, finished, has_pill in Hpl. rewrite Ehi, Hmo in Hpl. cbn in Hpl.
+                destruct (o_live _ HO w Hw ltac:(congruence)) as [_ Hnf]. congruence.
+             ++ assert (Hrf : rfailed s = true).
+                { unfold rfailed. rewrite Erd. cbn. apply Nat.ltb_lt. pose proof (b_pills _ HB). lia. }
+                destruct (Htr Hrf) as [Hx|[_ Hx]]; [discriminate | congruence].
+          -- destruct (rfn s) eqn:Efn.
+             ++ exists LRFail. cbn [negb andb]. eexists. reflexivity.
+             ++ destruct (next s <? C) eqn:Elt.
+                ** exists (LSend w). cbn [negb andb]. rewrite Hmq. cbn [negb andb]. eexists. reflexivity.
+                ** exists (LPill w). apply Nat.ltb_ge in Elt. pose proof (b_nc _ HB).
+                   assert (E1 : Nat.eqb (next s) C = true) by (apply Nat.eqb_eq; lia).
+                   assert (E2 : pills s <? W = true) by (apply Nat.ltb_lt; apply (b_rd _ HB Erd)).
+                   cbn [negb andb]. rewrite E1, E2, Hmq. cbn [negb andb]. eexists. reflexivity.
+      + exfalso. pose proof (o_done _ HO Hf w Hw Ews Hmo) as He. unfold has_end in He. rewrite Ehr in He. discriminate.
+  Qed.
+
+  (** ---- L4: a chunk that makes its worker raise is either still on its way or has left a worker
+      that can never finish regularly *)
+  Definition errored (s : state) (w : nat) : Prop :=
+    wstate s w = Done /\ mem w (open s) = true /\ has_fin w (results s) = false.
+  Definition tinv (s : state) : Prop := forall i, i < next s -> bad i = true ->
+    (exists w, In (w, MChunk i) (inflight s)) \/ (exists w, w < W /\ errored s w).
+
+  Lemma in_drop_other {M} w (l : list (nat * M)) m x : head_for w l = Some m -> In x l -> x <> (w, m) -> In x (drop_for w l).
+  Proof.
+    intros Hh Hin Hne. destruct (head_drop w l m Hh) as (a & b & Hl & Hd & _). rewrite Hd. rewrite Hl in Hin.
+    apply in_app_or in Hin. apply in_or_app. destruct Hin as [H|[H|H]]; [left; exact H | congruence | right; exact H].
+  Qed.
+
+  Lemma errored_step s l s' w : step s l = Some s' -> errored s w -> errored s' w.
+  Proof.
+    intros Hstep (Hd & Hmo & Hnf). destruct (step_inv _ _ _ Hstep) as [Hf Hc]. unfold errored.
+    destruct l as [v|v|v| |v|v|v|v|v|v|].
+    - destruct Hc as (_ & Hv & Hws & ->). fields. unfold upd. destruct (Nat.eqb w v) eqn:E; [apply Nat.eqb_eq in E; subst; congruence | auto].
+    - destruct Hc as (_ & _ & _ & _ & _ & ->). fields. auto.
+    - destruct Hc as (_ & _ & _ & _ & _ & _ & ->). fields. auto.
+    - destruct Hc as (_ & _ & _ & ->). fields. auto.
+    - destruct Hc as (_ & Hws & i & Hh & Hcase).
+      assert (Hne : w <> v) by (intros ->; congruence).
+      assert (E : Nat.eqb w v = false) by (apply Nat.eqb_neq; exact Hne).
+      destruct Hcase as [(Hb & ->)|(Hb & c & Hc' & ->)]; fields; unfold upd; rewrite E, (has_fin_other w v _ _ Hne); auto.
+    - destruct Hc as (_ & Hws & Hh & ->). assert (Hne : w <> v) by (intros ->; congruence).
+      assert (E : Nat.eqb w v = false) by (apply Nat.eqb_neq; exact Hne). fields; unfold upd; rewrite E, (has_fin_other w v _ _ Hne); auto.
+    - destruct Hc as (_ & Hws & Hh & ->). assert (Hne : w <> v) by (intros ->; congruence).
+      assert (E : Nat.eqb w v = false) by (apply Nat.eqb_neq; exact Hne). fields; unfold upd; rewrite E, (has_fin_other w v _ _ Hne); auto.
+    - destruct Hc as (_ & Hm & i & o & Hh & p & c & wr & Hfl' & ->). fields. repeat split; auto.
+      destruct (Nat.eq_dec w v) as [->|Hne]; [rewrite (has_fin_drop_same v _ _ Hh) in Hnf; cbn in Hnf; exact Hnf | rewrite (has_fin_drop_other w v _ Hne); exact Hnf].
+    - destruct Hc as (_ & Hm & st & Hh & ->). fields.
+      assert (Hne : w <> v) by (intros ->; rewrite (has_fin_head _ _ _ Hh) in Hnf; discriminate).
+      rewrite (mem_remove1_other w v Hne), (has_fin_drop_other w v _ Hne). auto.
+    - destruct Hc as (_ & Hm & Hh & ->). fields. repeat split; auto.
+      destruct (Nat.eq_dec w v) as [->|Hne]; [rewrite (has_fin_drop_same v _ _ Hh) in Hnf; cbn in Hnf; exact Hnf | rewrite (has_fin_drop_other w v _ Hne); exact Hnf].
+    - destruct Hc as (_ & ->). fields. auto.
+  Qed.
+
+  Lemma tinv_init : tinv init.
+  Proof. intros i Hi. cbn in Hi. lia. Qed.
+
+  Lemma tinv_step s l s' : binv s -> oinv s -> tinv s -> step s l = Some s' -> tinv s'.
+  Proof.
+    intros HB HO HT Hstep.
+    assert (Hkeep : next s' = next s -> (forall x, In x (inflight s) -> In x (inflight s')) -> tinv s').
+    { intros Hn Hsub i Hi Hb. rewrite Hn in Hi. destruct (HT i Hi Hb) as [(w & Hw)|(w & Hw & He)].
+      - left. exists w. apply Hsub. exact Hw.
+      - right. exists w. split; [exact Hw | eapply errored_step; eauto]. }
+    destruct (step_inv _ _ _ Hstep) as [Hf Hc].
+    destruct l as [w|w|w| |w|w|w|w|w|w|].
+    - destruct Hc as (_ & Hw & Hws & ->). apply Hkeep; fields; auto.
+    - (* LSend *) destruct Hc as (_ & Hr & Hfn & Hlt & Hm & Hs'). intros i Hi Hb. rewrite Hs' in Hi; unfold stp in Hi; cbn [next] in Hi.
+      destruct (Nat.eq_dec i (next s)) as [->|Hne].
+      + left. exists w. rewrite Hs'; fields. apply in_or_app. right. left. reflexivity.
+      + destruct (HT i ltac:(lia) Hb) as [(v & Hv)|(v & Hv & He)].
+        * left. exists v. rewrite Hs'; fields. apply in_or_app. left. exact Hv.
+        * right. exists v. split; [exact Hv | eapply errored_step; eauto].
+    - destruct Hc as (_ & _ & _ & _ & _ & _ & ->). apply Hkeep; fields; auto. intros x Hx. apply in_or_app. left. exact Hx.
+    - destruct Hc as (_ & _ & _ & ->). apply Hkeep; fields; auto. intros x Hx. apply in_or_app. left. exact Hx.
+    - (* LTake *) destruct Hc as (_ & Hws & j & Hh & Hcase).
+      assert (Hinw : In (w, MChunk j) (inflight s)).
+      { destruct (head_drop w _ _ Hh) as (a & b & Hl & _). rewrite Hl. apply in_or_app. right. left. reflexivity. }
+      assert (Hw : w < W) by (apply (b_in _ HB _ Hinw)).
+      destruct (o_live _ HO w Hw ltac:(congruence)) as [Hmo Hnf].
+      intros i Hi Hb.
+      assert (Hn : next s' = next s) by (destruct Hcase as [(_ & ->)|(_ & c & _ & ->)]; reflexivity).
+      rewrite Hn in Hi. destruct (HT i Hi Hb) as [(v & Hv)|(v & Hv & He)].
+      + destruct (Nat.eq_dec i j) as [->|Hij].
+        * destruct Hcase as [(Hbj & Hs')|(Hbj & _)]; [|congruence].
+          right. exists w. split; [exact Hw|]. rewrite Hs'. unfold errored; fields. unfold upd. rewrite Nat.eqb_refl.
+          rewrite has_fin_same, Hnf. repeat split; auto.
+        * left. exists v. assert (Hin' : In (v, MChunk i) (drop_for w (inflight s))).
+          { eapply in_drop_other; [exact Hh | exact Hv | intros Heq; inversion Heq; congruence]. }
+          destruct Hcase as [(_ & ->)|(_ & c & _ & ->)]; fields; exact Hin'.
+      + right. exists v. split; [exact Hv | eapply errored_step; eauto].
+    - (* LFin *) destruct Hc as (_ & Hws & Hh & Hs'). intros i Hi Hb. rewrite Hs' in Hi; unfold stp in Hi; cbn [next] in Hi.
+      destruct (HT i Hi Hb) as [(v & Hv)|(v & Hv & He)].
+      + left. exists v. rewrite Hs'; fields. eapply in_drop_other; [exact Hh | exact Hv | intros Heq; inversion Heq].
+      + right. exists v. split; [exact Hv | eapply errored_step; eauto].
+    - (* LWErr *) destruct Hc as (_ & Hws & Hh & Hs'). intros i Hi Hb. rewrite Hs' in Hi; unfold stp in Hi; cbn [next] in Hi.
+      destruct (HT i Hi Hb) as [(v & Hv)|(v & Hv & He)].
+      + left. exists v. rewrite Hs'; fields. eapply in_drop_other; [exact Hh | exact Hv | intros Heq; inversion Heq].
+      + right. exists v. split; [exact Hv | eapply errored_step; eauto].
+    - destruct Hc as (_ & Hm & i & o & Hh & p & c & wr & Hfl' & ->). apply Hkeep; fields; auto.
+    - destruct Hc as (_ & Hm & st & Hh & ->). apply Hkeep; fields; auto.
+    - destruct Hc as (_ & Hm & Hh & ->). apply Hkeep; fields; auto.
+    - destruct Hc as (_ & ->). apply Hkeep; fields; auto.
+  Qed.
+
+  Lemma tinv_reachable s : reachable A O S f g szero sadd chunks W bad rfail ffail s -> tinv s.
+  Proof.
+    intros [ls Hr]. revert Hr. generalize tinv_init linv_init. generalize init. induction ls as [|l t IH]; intros s0 HT0 HL0 Hr; cbn in Hr.
+    - inversion Hr; subst. exact HT0.
+    - destruct (step s0 l) as [s1|] eqn:E; [|discriminate]. pose proof (linv_step _ _ _ HL0 E) as HL1. destruct HL0 as (H1 & H2 & H3 & H4 & H5).
+      eapply IH; [eapply tinv_step; eauto | exact HL1 | exact Hr].
+  Qed.
+
+  (** ---- a run that finishes without failure has met no fault: the format was detected, the
+      reader never raised, and no chunk made a worker raise *)
+  Theorem finished_means_no_fault s : reachable A O S f g szero sadd chunks W bad rfail ffail s -> finished_ok s = true ->
+    ffail = false /\ next s = C /\ (forall k, rfail = Some k -> C < k) /\ (forall i, i < C -> bad i = false).
+  Proof.
+    intros Hreach Hfin. pose proof (tinv_reachable s Hreach) as HT. destruct (linv_reachable s Hreach) as (HI & HB & HO & HP & HK).
+    unfold finished_ok in Hfin. apply andb_prop in Hfin. destruct Hfin as [Hf Hop]. apply negb_true_iff in Hf.
+    destruct (open s) as [|x ox] eqn:Eo; [|discriminate].
+    assert (Hff : ffail = false).
+    { destruct (Bool.bool_dec ffail false) as [E|E]; [exact E|]. apply not_false_is_true in E.
+      pose proof (b_ff _ HB E) as H. rewrite Eo in H. destruct W; [lia | discriminate]. }
+    assert (Hallfin : forall w, w < W -> pilled s w = true).
+    { intros w Hw. unfold pilled, finished. rewrite Eo. cbn. apply orb_true_r. }
+    assert (Hp : pills s = W).
+    { unfold kinv in HK. rewrite HK. rewrite <- (seq_length W 0) at 2. f_equal.
+      assert (H : forall l, (forall w, In w l -> w < W) -> filter (pilled s) l = l).
+      { induction l as [|y t IH]; intros Hl; [reflexivity|]. cbn [filter]. rewrite (Hallfin y (Hl y (or_introl eq_refl))). f_equal. apply IH.
+        intros w Hw. apply Hl. right. exact Hw. }
+      apply H. intros w Hw. apply in_seq in Hw. lia. }
+    destruct (b_pn _ HB ltac:(lia)) as [Hn Hfn].
+    split; [exact Hff|]. split; [exact Hn|]. split.
+    - intros k Hk. pose proof (b_rf _ HB k Hk). unfold reader_fails_now in Hfn. rewrite Hk in Hfn. apply Nat.eqb_neq in Hfn. lia.
+    - intros i Hi. destruct (bad i) eqn:Eb; [|reflexivity]. exfalso. rewrite <- Hn in Hi.
+      destruct (HT i Hi Eb) as [(w & Hw)|(w & Hw & (_ & Hmo & _))].
+      + pose proof (b_in _ HB _ Hw) as Hlt. cbn in Hlt. destruct (shape_nonerr s w _ (HP w Hlt) Hw eq_refl) as (Hws & _).
+        destruct (o_live _ HO w Hlt ltac:(congruence)) as [Hmo _]. rewrite Eo in Hmo. discriminate.
+      + rewrite Eo in Hmo. discriminate.
+  Qed.
+
+  (** ---- L5: when no chunk below C makes a worker raise, no chunk is ever dropped: the chunks in
+      flight plus the chunks written are all the chunks handed out *)
+  Definition cinv (s : state) : Prop := length (flight s) + cur s = next s.
+
+  Lemma chunk_ids_cons x l : chunk_ids (x :: l) = (match snd x with MChunk i => [i] | _ => [] end) ++ chunk_ids l.
+  Proof. reflexivity. Qed.
+  Lemma result_ids_cons x l : result_ids O S (x :: l) = (match snd x with MResult i _ => [i] | _ => [] end) ++ result_ids O S l.
+  Proof. reflexivity. Qed.
+
+  Lemma chunk_ids_drop w (l : list (nat * msg_in)) m : head_for w l = Some m ->
+    length (chunk_ids l) = length (chunk_ids (drop_for w l)) + (match m with MChunk _ => 1 | _ => 0 end).
+  Proof.
+    intros Hh. destruct (head_drop w l m Hh) as (a & b & Hl & Hd & _). rewrite Hd. rewrite Hl at 1.
+    rewrite !chunk_ids_app, chunk_ids_cons, !app_length. cbn [snd]. destruct m; cbn [length]; lia.
+  Qed.
+
+  Lemma result_ids_drop w (l : list (nat * msg_out O S)) m : head_for w l = Some m ->
+    length (result_ids O S l) = length (result_ids O S (drop_for w l)) + (match m with MResult _ _ => 1 | _ => 0 end).
+  Proof.
+    intros Hh. destruct (head_drop w l m Hh) as (a & b & Hl & Hd & _). rewrite Hd. rewrite Hl at 1.
+    rewrite !result_ids_app, result_ids_cons, !app_length. cbn [snd]. destruct m; cbn [length]; lia.
+  Qed.
+
+  Lemma flush_count : forall fuel (p : list (nat * O)) c wr, NoDup (keys O p) ->
+    let '(p', c', wr') := flush fuel p c wr in length p' + c' = length p + c.
+  Proof.
+    induction fuel as [|fu IH]; intros p c wr Hnd; cbn [flush]; [reflexivity|].
+    destruct (lookup c p) as [o|] eqn:El; [|reflexivity].
+    pose proof (lookup_in _ _ _ _ El) as Hin.
+    assert (Hk : In c (keys O p)) by (unfold keys; apply in_map_iff; exists (c, o); auto).
+    destruct (delete_keys O c p Hnd Hk) as (Hperm & Hsub & Hni).
+    assert (Hnd2 : NoDup (c :: keys O (delete c p))) by (eapply Permutation_NoDup; eauto).
+    apply NoDup_cons_iff in Hnd2. destruct Hnd2 as [_ Hnd3].
+    specialize (IH (delete c p) (Datatypes.S c) (wr ++ [o]) Hnd3).
+    destruct (flush fu (delete c p) (Datatypes.S c) (wr ++ [o])) as [[p' c'] wr'].
+    pose proof (Permutation_length Hperm) as Hl. cbn [length] in Hl. unfold keys in Hl. rewrite !map_length in Hl. lia.
+  Qed.
+
+  Hypothesis no_bad : forall i, i < C -> bad i = false.
+
+  Lemma cinv_init : cinv init.
+  Proof. reflexivity. Qed.
+
+  Lemma cinv_step s l s' : inv s -> cinv s -> step s l = Some s' -> cinv s'.
+  Proof.
+    intros HI HC Hstep. destruct (step_inv _ _ _ Hstep) as [Hf Hc]. unfold cinv, flight in *.
+    destruct l as [w|w|w| |w|w|w|w|w|w|].
+    - destruct Hc as (_ & Hw & Hws & ->). fields. exact HC.
+    - destruct Hc as (_ & _ & _ & _ & _ & ->). fields. rewrite chunk_ids_app, !app_length in *. cbn. lia.
+    - destruct Hc as (_ & _ & _ & _ & _ & _ & ->). fields. rewrite chunk_ids_app, !app_length in *. cbn. lia.
+    - destruct Hc as (_ & _ & _ & ->). fields. rewrite chunk_ids_app, chunk_ids_errs, app_nil_r. exact HC.
+    - destruct Hc as (_ & Hws & i & Hh & Hcase). pose proof (chunk_ids_drop w _ _ Hh) as Hd; cbv iota in Hd.
+      assert (Hi : i < C).
+      { destruct (head_drop w _ _ Hh) as (a & b & Hl & _). destruct HI as [Hr _ _ Hb _ _ _]. specialize (Hb i).
+        assert (Hin : In i (RunnerSafety.flight O S s)).
+        { unfold RunnerSafety.flight. apply in_or_app. left. rewrite Hl. rewrite chunk_ids_app. apply in_or_app. right. cbn. left. reflexivity. }
+        specialize (Hb Hin). lia. }
+      destruct Hcase as [(Hb & _)|(Hb & c & Hc' & ->)]; [rewrite (no_bad i Hi) in Hb; discriminate|].
+      fields. rewrite result_ids_app, !app_length in *. cbn [result_ids flat_map snd length app]. lia.
+    - destruct Hc as (_ & Hws & Hh & ->). pose proof (chunk_ids_drop w _ _ Hh) as Hd; cbv iota in Hd. fields.
+      rewrite result_ids_app, !app_length in *. cbn [result_ids flat_map snd length app]. lia.
+    - destruct Hc as (_ & Hws & Hh & ->). pose proof (chunk_ids_drop w _ _ Hh) as Hd; cbv iota in Hd. fields.
+      rewrite result_ids_app, !app_length in *. cbn [result_ids flat_map snd length app]. lia.
+    - destruct Hc as (_ & Hm & i & o & Hh & p & c & wr & Hfl' & ->). pose proof (result_ids_drop w _ _ Hh) as Hd; cbv iota in Hd. fields.
+      assert (Hnd : NoDup (keys O ((i, o) :: pending s))).
+      { destruct HI as [_ _ Hnd _ _ _ _]. unfold RunnerSafety.flight in Hnd. destruct (head_drop w _ _ Hh) as (a & b & Hl & _).
+        rewrite Hl, result_ids_app in Hnd. cbn [result_ids flat_map snd app] in Hnd.
+        apply NoDup_app_r in Hnd. rewrite <- app_assoc in Hnd. apply NoDup_app_r in Hnd. cbn [app] in Hnd.
+        cbn [keys map fst]. apply NoDup_cons_iff in Hnd. destruct Hnd as [Hni Hnd]. apply NoDup_app_r in Hnd.
+        constructor; [|exact Hnd]. intros Hin. apply Hni. apply in_or_app. right. exact Hin. }
+      pose proof (flush_count (Datatypes.S (length (pending s))) ((i, o) :: pending s) (cur s) (written s) Hnd) as Hfc.
+      rewrite Hfl' in Hfc. cbn [length] in Hfc. unfold keys in *. rewrite !app_length, !map_length in *. lia.
+    - destruct Hc as (_ & Hm & st & Hh & ->). pose proof (result_ids_drop w _ _ Hh) as Hd; cbv iota in Hd. fields. rewrite !app_length in *. lia.
+    - destruct Hc as (_ & Hm & Hh & ->). pose proof (result_ids_drop w _ _ Hh) as Hd; cbv iota in Hd. fields. rewrite !app_length in *. lia.
+    - destruct Hc as (_ & ->). fields. exact HC.
+  Qed.
+
+  Lemma cinv_reachable s : reachable A O S f g szero sadd chunks W bad rfail ffail s -> cinv s.
+  Proof.
+    intros [ls Hr]. revert Hr. generalize cinv_init linv_init. generalize init. induction ls as [|l t IH]; intros s0 HC0 HL0 Hr; cbn in Hr.
+    - inversion Hr; subst. exact HC0.
+    - destruct (step s0 l) as [s1|] eqn:E; [|discriminate]. pose proof (linv_step _ _ _ HL0 E) as HL1. destruct HL0 as (H1 & _).
+      eapply IH; [eapply cinv_step; eauto | exact HL1 | exact Hr].
+  Qed.
+
+  Lemma chunk_ids_in i : forall l, In i (chunk_ids l) -> exists w, In (w, MChunk i) l.
+  Proof.
+    induction l as [|[w m] t IH]; intros H; [contradiction|]. rewrite chunk_ids_cons in H. apply in_app_or in H. destruct H as [H|H].
+    - cbn [snd] in H. destruct m; try contradiction. destruct H as [<-|[]]. exists w. left. reflexivity.
+    - destruct (IH H) as (v & Hv). exists v. right. exact Hv.
+  Qed.
+
+  Lemma result_ids_in i : forall l, In i (result_ids O S l) -> exists w o, In (w, MResult i o) l.
+  Proof.
+    induction l as [|[w m] t IH]; intros H; [contradiction|]. rewrite result_ids_cons in H. apply in_app_or in H. destruct H as [H|H].
+    - cbn [snd] in H. destruct m; try contradiction. destruct H as [<-|[]]. exists w, o. left. reflexivity.
+    - destruct (IH H) as (v & o & Hv). exists v, o. right. exact Hv.
+  Qed.
+
+  Lemma nodup_range_length (l : list nat) a b : NoDup l -> (forall x, In x l -> a < x < b) -> length l + a + 1 <= b \/ l = [].
+  Proof.
+    intros Hnd Hr. destruct l as [|y t] eqn:El; [right; reflexivity|]. left. rewrite <- El in *.
+    assert (Hincl : incl l (seq (Datatypes.S a) (b - a - 1))).
+    { intros x Hx. apply in_seq. specialize (Hr x Hx). lia. }
+    pose proof (NoDup_incl_length Hnd Hincl) as Hlen. rewrite seq_length in Hlen.
+    assert (Hy : a < y < b) by (apply Hr; rewrite El; left; reflexivity). lia.
+  Qed.
+
+  (** a run that finishes (no chunk below C being faulty) has written the blocks of all chunks *)
+  Theorem finished_wrote_everything s : reachable A O S f g szero sadd chunks W bad rfail ffail s -> finished_ok s = true ->
+    written s = map f chunks /\ cur s = C.
+  Proof.
+    intros Hreach Hfin. pose proof (cinv_reachable s Hreach) as HC. destruct (linv_reachable s Hreach) as (HI & HB & HO & HP & HK).
+    destruct (finished_means_no_fault s Hreach Hfin) as (_ & Hn & _ & _).
+    unfold finished_ok in Hfin. apply andb_prop in Hfin. destruct Hfin as [Hf Hop].
+    destruct (open s) as [|x ox] eqn:Eo; [|discriminate].
+    assert (H1 : chunk_ids (inflight s) = []).
+    { destruct (chunk_ids (inflight s)) as [|i t] eqn:E; [reflexivity|]. exfalso.
+      destruct (chunk_ids_in i (inflight s)) as (w & Hw); [rewrite E; left; reflexivity|].
+      pose proof (b_in _ HB _ Hw) as Hlt. cbn in Hlt. destruct (shape_nonerr s w _ (HP w Hlt) Hw eq_refl) as (Hws & _).
+      destruct (o_live _ HO w Hlt ltac:(congruence)) as [Hmo _]. rewrite Eo in Hmo. discriminate. }
+    assert (H2 : result_ids O S (results s) = []).
+    { destruct (result_ids O S (results s)) as [|i t] eqn:E; [reflexivity|]. exfalso.
+      destruct (result_ids_in i (results s)) as (w & o & Hw); [rewrite E; left; reflexivity|].
+      pose proof (o_in _ HO _ Hw) as Hmo. rewrite Eo in Hmo. discriminate. }
+    unfold cinv, RunnerSafety.flight in HC. rewrite H1, H2 in HC. cbn [app] in HC.
+    destruct HI as [Hr Hw Hnd Hb Hnc _ _]. unfold RunnerSafety.flight in Hnd, Hb. rewrite H1, H2 in Hnd, Hb. cbn [app] in Hnd, Hb.
+    assert (Hrange : forall j, In j (keys O (pending s)) -> cur s < j < C).
+    { intros j Hj. specialize (Hb j Hj). assert (j <> cur s) by (intros ->; contradiction). lia. }
+    destruct (nodup_range_length _ _ _ Hnd Hrange) as [Hlen|Hnil]; [lia|].
+    rewrite Hnil in HC. cbn in HC. assert (Hcur : cur s = C) by lia. split; [|exact Hcur].
+    rewrite Hw, Hcur. rewrite firstn_all. reflexivity.
+  Qed.
 End Live.
+
+(** the fault-free hypothesis of [finished_wrote_everything] is itself a consequence of finishing *)
+Theorem finished_complete (A O S : Type) (f : A -> O) (g : A -> S) szero sadd chunks W bad rfail ffail s :
+  0 < W -> reachable A O S f g szero sadd chunks W bad rfail ffail s -> finished_ok s = true ->
+  written s = map f chunks.
+Proof.
+  intros HW Hr Hf. destruct (finished_means_no_fault A O S f g szero sadd chunks W bad rfail ffail HW s Hr Hf) as (_ & _ & _ & Hnb).
+  destruct (finished_wrote_everything A O S f g szero sadd chunks W bad rfail ffail HW Hnb s Hr Hf) as [H _]. exact H.
+Qed.
+
+(** no deadlock, for every fault pattern: a reachable state that is not terminal has an enabled step *)
+Theorem no_deadlock (A O S : Type) (f : A -> O) (g : A -> S) szero sadd chunks W bad rfail ffail s :
+  0 < W -> reachable A O S f g szero sadd chunks W bad rfail ffail s -> terminal s = false ->
+  exists l s', step A O S f g sadd chunks W bad rfail ffail s l = Some s'.
+Proof.
+  intros HW Hr Ht. apply (progress A O S f g szero sadd chunks W bad rfail ffail HW s); [|exact Ht].
+  apply (linv_reachable A O S f g szero sadd chunks W bad rfail ffail HW s Hr).
+Qed.
